@@ -249,7 +249,12 @@ def run_shard(spec, rec):
                         rec.violation("invalid-pattern-not-false", {"function": fn, "pattern": bad, "subject": s, "query": q, "observed": got})
             ns = R.choice(NONSTRINGS)
             for fn in ("match", "search"):
-                for (s, pp) in ((ns, "a.*"), ("a", ns), (ns, ns)):
+                lit_pat = "a"
+                if isinstance(ns, list) and ns and isinstance(ns[0], str):
+                    lit_pat = ns[0]
+                elif isinstance(ns, dict) and ns:
+                    lit_pat = next(iter(ns))
+                for (s, pp) in ((ns, "a.*"), ("a", ns), (ns, ns), (ns, lit_pat), (ns, ""), ([""], ""), ({"": 1}, ""), (["ab", "a"], "ab")):
                     o = mon.observe(jp.find, "$[?%s(@.s, @.p)]" % fn, [{"s": s, "p": pp}])
                     rec.monitor("M-find")
                     rec.case(("nonstring", repr(s), repr(pp), fn), True)
